@@ -292,6 +292,9 @@ def gen_huge(g, rng, nsample):
                         for st in (HUGE_STEPS if gst else [None]):
                             if sfx == "i" and not (fits(s) and fits(e)):
                                 continue
+                            # INT_MIN as a bound (negating it is undefined behaviour in int arithmetic): keep only a few cases
+                            if sfx == "i" and -imax - 1 in (s, e) and (gs and ge):
+                                continue
                             # thin the full 3-component grid deterministically
                             if gs and ge and gst and ((s % 7) * 3 + (e % 5) + st) % 3:
                                 continue
